@@ -31,7 +31,9 @@ def run_check(prop, tier, seed, prop_modules, parts, rule, assumptions, trusted_
         driver.close()
     if not gate["ok"]:
         # a proof obligation no longer checks: a concrete failing input may already have been found by a part
-        found = any(v[3] for v in verdict.violations)
+        # (a reproduced KNOWN finding is not a failing input for the broken proof)
+        known_sites = {k.get("site") for k in getattr(verdict, "known", [])}
+        found = any(v[3] and v[0] not in known_sites for v in verdict.violations)
         if not found:
             verdict.add("proof-gate", "; ".join(gate["failures"])[:1500], dict(broken_theorems=gate["failures"], checker_cmd=gate["cmd"]), found_input=False)
         else:
